@@ -127,6 +127,7 @@ def build(ctx, cfg):
     ctx.input("tid", p.tid0[:N])
     ctx.input("lid", p.lid0[:N])
     ctx.input("cus", p.cus0[:N])
+    ctx.input("succ_order", g.order_log)
     ctx.input("max_tid", p.maxt)
     ctx.input("max_lid", p.maxl)
     ctx.env.update(N=N, alive=p.alive0, adj=p.adj0, t=p.t0, tid=p.tid0, lid=p.lid0, outdeg0=sh.outdeg,
@@ -259,7 +260,9 @@ def perform(ctx, p, cfg):
                 act = UserSwapPredecessors(tr, (u, v))
             elif kind == "AddEdge":
                 ctx.input("args", args)
-                # documented precondition of the primitive: none beyond existing endpoints
+                # documented precondition of the primitive ("adding a NEW edge"): the edge is not there yet
+                if u - 1 < p.N and v - 1 < p.N:
+                    ctx.assume(Not(p.sh0.A[u - 1][v - 1]))
                 act = AddEdge(tr, (u, v))
             else:
                 ctx.input("args", args)
@@ -450,7 +453,31 @@ def harness(ctx, cfg):
             ctx.oblige("C20.payload", payload_ok, "C20")
         ctx.witness("state_changed", Not(And(same_graph(S0, S1), same_attrs(S0, S1))))
 
-    if want("C01") or want("C20") or want("C02"):
+    if kind == "UpdateTrackIDs" and (want("C04") or want("C05")):
+        # contract of the primitive that every lineage/track update of the user actions rests on:
+        # the new lineage id reaches EVERY descendant of the start node (through divisions), the new
+        # track id exactly the nodes of the start node's segment from the start node downwards
+        n = S0.sh.n
+        s0 = args["n"] - 1
+        A0 = S0.sh.A
+        reach = [[A0[i][j] for j in range(n)] for i in range(n)]
+        segr = [[And(A0[i][j], S0.sh.outdeg[i] == 1) for j in range(n)] for i in range(n)]
+        for m in range(n):
+            reach = [[Or(reach[i][j], And(reach[i][m], reach[m][j])) for j in range(n)] for i in range(n)]
+            segr = [[Or(segr[i][j], And(segr[i][m], segr[m][j])) for j in range(n)] for i in range(n)]
+        c5, c4 = [], []
+        for j in range(p.N):
+            below = Or(z3.BoolVal(j == s0), reach[s0][j])
+            onseg = Or(z3.BoolVal(j == s0), segr[s0][j])
+            if args["lid"] is not None and S1.lid[j] is not None:
+                c5.append(Implies(S0.sh.al[j], S1.lid[j] == z3.If(below, args["lid"], p.lid0[j])))
+            if S1.tid[j] is not None:
+                c4.append(Implies(S0.sh.al[j], S1.tid[j] == z3.If(onseg, args["tid"], p.tid0[j])))
+        if want("C05") and p.with_lineage:
+            ctx.oblige("C05.lineage_update_reaches_all_descendants", And(c5), "C05")
+        if want("C04"):
+            ctx.oblige("C04.track_update_covers_exactly_the_segment", And(c4), "C04")
+    if want("C01") or want("C20") or want("C02") or want("C06"):
         # invert, then invert the inverse (through the history for user actions)
         del p.emitted[:]
         try:
